@@ -269,6 +269,17 @@ func (p *Path) selectOp(fr *Frame, x *ssa.Select) Value {
 			if len(ready) == 0 {
 				return mkResult(-1, nil, false)
 			}
+			// a poll that only an environment source could satisfy may also come too early
+			pureEnv := e.inTask == 0
+			for _, i := range ready {
+				ch := states[i].ch
+				if states[i].send || len(ch.buf) > 0 || ch.closed || ch.envGen == nil {
+					pureEnv = false
+				}
+			}
+			if pureEnv && p.choose(2, "poll") == 1 {
+				return mkResult(-1, nil, false)
+			}
 		} else if e.inTask == 0 && e.stepsSet && !counted && isLoopSelect {
 			counted = true
 			e.stepsLeft--
